@@ -216,6 +216,7 @@ type kdSpec struct {
 	rotLocked            bool
 	swCreation           int
 	nullStyle            string // "go" (encoding/asn1's own flag form) | "schema" (EXPLICIT NULL, as published)
+	teeExtra             [][]byte // further elements of the TEE list, placed after keySize [3] (tags the library's struct does not have)
 }
 
 func (k kdSpec) authList(tee bool) []byte {
@@ -239,6 +240,7 @@ func (k kdSpec) authList(tee bool) []byte {
 		if k.keySize != 0 {
 			items = append(items, derExplicit(3, derInt(int64(k.keySize))))
 		}
+		items = append(items, k.teeExtra...)
 		if k.teeNoAuth {
 			items = append(items, flag(503))
 		}
